@@ -100,15 +100,47 @@ def gen_program(rng, lang: str, idx: int, max_small: int = 10):
 
     L = lambda: gen_literal(rng, lang)  # noqa: E731
     n_sites = rng.randint(6, 24)
+    facts = {"upperConsts": 0, "dictIntKeys": []}
+
+    def py_dict(ind):
+        """a multi-line dict display, one key per line; integer-constant keys are what is_definition_file counts"""
+        size = rng.choice([2, 3, 3, 4, 4, 5, 6])
+        lines.append(f"{ind}table_{len(lines)} = {{")
+        ints = 0
+        for _ in range(size):
+            r = rng.random()
+            if r < 0.12:
+                lines.append(f"{ind}    'k{len(lines)}': 'v',")
+                continue
+            lit = L()
+            if r < 0.8:
+                while lit[2]:
+                    lit = L()
+            site(f"{ind}    «LIT»: 'v',", "plain", lit)
+            ints += (not lit[2])
+        lines.append(f"{ind}}}")
+        facts["dictIntKeys"].append(ints)
+
     if lang == "python":
         lines += [f'"""module {idx}"""', "import os", ""]
-        for _ in range(rng.randint(0, 2)):
+        n_consts = rng.choice([0, 1, 2]) if rng.random() < 0.8 else rng.choice([8, 9, 9, 10, 10, 12])
+        for _ in range(n_consts):
             site(f"MAX_{len(lines)} = «LIT»", "upperConstDirect", L())
+        facts["upperConsts"] = n_consts
         lookalike('VERSION = "1.2.3"', "digit string")
-        lookalike("ENABLED = True", "boolean")
+        n_dicts = rng.choice([1, 2, 2, 3]) if rng.random() < 0.35 else 0
+        inner_dicts = 0
+        for _ in range(n_dicts):
+            if rng.random() < 0.6:
+                py_dict("")
+            else:
+                inner_dicts += 1
         lines += ["", "", "class Config:"]
+        lookalike("    ENABLED = True", "boolean")
         site("    LIMIT_%d = «LIT»" % len(lines), "upperConstDirect", L())
         lines += ["    def run(self, xs, a, compute):"]
+        for _ in range(inner_dicts):
+            py_dict("        ")
         body = []
         for _ in range(n_sites):
             k = rng.choice(["plain_call", "plain_ret", "plain_list", "plain_binop", "plain_cmp", "plain_kw", "plain_comp", "plain_sub", "range", "range", "enumerate", "enumerate", "repeat",
@@ -174,7 +206,7 @@ def gen_program(rng, lang: str, idx: int, max_small: int = 10):
         lines.append("class Config {")
         lines.append("  run(xs, a, compute) {" if not ts else "  run(xs: number[], a: number, compute: any) {")
         for _ in range(n_sites):
-            k = rng.choice(["call", "ret", "arr", "binop", "cmp", "lower", "nested_const", "nested_arr", "deep_const", "pair", "lowerpair", "idx", "arrow"])
+            k = rng.choice(["call", "ret", "arr", "binop", "cmp", "lower", "nested_const", "nested_arr", "deep_const", "pair", "lowerpair", "idx", "arrow", "multi_decl", "multi_decl_rev", "multi_let"])
             lit = L()
             ind = "    "
             if k == "call":
@@ -201,6 +233,15 @@ def gen_program(rng, lang: str, idx: int, max_small: int = 10):
                 site(f"{ind}const opts = {{ timeout: «LIT» }};", "plain", lit)
             elif k == "idx":
                 site(f"{ind}const first = xs[«LIT»];", "plain", lit)
+            elif k == "multi_decl":      # one declaration, several declarators: each name decides for its own value only
+                site(f"{ind}const MAX_RETRIES_{len(lines)} = «LIT»,", "upperConstDirect", lit)
+                site(f"{ind}  backoff_{len(lines)} = «LIT»;", "plain", L())
+            elif k == "multi_decl_rev":
+                site(f"{ind}const delay_{len(lines)} = «LIT»,", "plain", lit)
+                site(f"{ind}  LIMIT_{len(lines)} = «LIT»;", "upperConstDirect", L())
+            elif k == "multi_let":
+                site(f"{ind}for (let START_{len(lines)} = «LIT»,", "upperConstDirect", lit)
+                site(f"{ind}  stop_{len(lines)} = «LIT»; a < stop_{len(lines)}; a++) {{ a += xs.length; }}", "plain", L())
             else:
                 site(f"{ind}const f = (z) => z + «LIT»;", "plain", lit)
         lookalike('    const label = "route 66";', "digit string")
@@ -246,7 +287,7 @@ def gen_program(rng, lang: str, idx: int, max_small: int = 10):
     bysite = {s["line"]: s for s in sites if s["kind"] == "literal"}
     for i, l in enumerate(lines, 1):
         out_lines.append(l.replace("«LIT»", bysite[i]["text"]) if i in bysite else l)
-    return out_lines, sites
+    return out_lines, sites, facts
 
 
 def val_json(fr: Fraction):
@@ -314,7 +355,9 @@ def run(tier: str, seed: int, st: core.ProofStatus) -> core.Result:
     res.rule = ("seeded programs per language (python, typescript, javascript, rust) with 8-30 literal sites, one per line, over every "
                 "lexical form (dec, hex with/without e, 0o, 0b, underscore, float, exponent, BigInt, legacy octal, Rust suffixes, hex "
                 "ending in f32) x position kinds, plus digit strings and booleans; 3 configs per program: random allowed_numbers / "
-                "max_small_integer, the same + v, the same - v'; test-file names for a share of the programs; non-trivial = at least "
+                "max_small_integer, the same + v, the same - v'; test-file names for a share of the programs; Python files also vary "
+                "what makes a constants-definition module (file name patterns and near misses, 0-12 module-level constants, 0-3 "
+                "dict displays with 0-6 integer keys each, module level or nested); TS/JS declarations with several declarators; non-trivial = at least "
                 "one reported and one exempt/allowed site; distinct by program text + config")
     rng = core.sub_rng(seed, PROP, tier)
     n = 120 if tier == "quick" else 2000
@@ -323,7 +366,7 @@ def run(tier: str, seed: int, st: core.ProofStatus) -> core.Result:
     for i in range(n):
         lang = ["python", "typescript", "rust", "javascript"][i % 4] if rng.random() < 0.9 else rng.choice(["python", "typescript", "rust"])
         ms = rng.choice([1, 3, 6, 7, 9, 10, 10, 12, 20])
-        lines, sites = gen_program(rng, lang, i, ms)
+        lines, sites, facts = gen_program(rng, lang, i, ms)
         cfg = gen_cfg(rng, sites)
         cfg["maxSmall"] = ms
         lits = [s for s in sites if s["kind"] == "literal"]
@@ -334,12 +377,17 @@ def run(tier: str, seed: int, st: core.ProofStatus) -> core.Result:
         testfile = rng.random() < 0.12
         fname = {"python": "test_mod%d.py" if testfile else "mod%d.py", "typescript": "mod%d.test.ts" if testfile else "mod%d.ts",
                  "javascript": "mod%d.spec.js" if testfile else "mod%d.js", "rust": "mod%d.rs"}[lang] % i
+        if lang == "python" and not testfile and rng.random() < 0.15:
+            # definition-file names (any letter case) and near misses
+            fname = rng.choice(["status_codes.py", "constants.py", "app_constants.py", "Error_Codes.py", "CONSTANTS.py",
+                                "codes.py", "constantsx.py", "status_codes_v2.py", "myconstants.py"])
+        facts["name"] = fname
         if testfile and lang != "rust":
             for s in lits:
                 s["testFile"] = True
         cfgs = [cfg, cfg_add, cfg_rm]
         work.append((i, lang, "\n".join(lines) + "\n", [cfg_yaml(c) for c in cfgs], fname, str(root)))
-        metas.append({"lang": lang, "lines": lines, "sites": sites, "cfgs": cfgs, "fname": fname, "v_add": v_add, "v_rm": v_rm})
+        metas.append({"lang": lang, "lines": lines, "sites": sites, "cfgs": cfgs, "fname": fname, "v_add": v_add, "v_rm": v_rm, "facts": facts})
     try:
         impls = core.pmap(impl_case, work, procs=16)
     finally:
@@ -357,7 +405,12 @@ def run(tier: str, seed: int, st: core.ProofStatus) -> core.Result:
             if run_ is None:
                 res.disagreements.append(core.Disagreement(case=case, impl=im["errors"], model=None, spec=None, property_fails=True, note=(im["errors"] or ["no output"])[0][:500]))
                 continue
-            m = drv.call({"prop": PROP, "lang": mlang, "allowed": [val_json(a) for a in cfg["allowed"]], "maxSmall": cfg["maxSmall"], "sites": lits})
+            m = drv.call({"prop": PROP, "lang": mlang, "allowed": [val_json(a) for a in cfg["allowed"]], "maxSmall": cfg["maxSmall"], "sites": lits, "file": meta["facts"]})
+            if lang == "python":
+                res.bump("python file", "definition file" if m["definitionFile"] else "ordinary file")
+                if meta["facts"]["dictIntKeys"]:
+                    ks = meta["facts"]["dictIntKeys"]
+                    res.bump("int-keyed dicts", "one >= 5" if max(ks) >= 5 else "all < 5, sum >= 5" if sum(ks) >= 5 else "all < 5")
             by_line = {}
             for line, val, rid in run_["reports"]:
                 by_line.setdefault(line, []).append(val)
